@@ -283,6 +283,10 @@ inductive CallOut
   | invalid                                    -- ServiceValidationError (response requested/required mismatch)
   | ran (gen : Nat) (kwargs : Kw) (response : Bool)   -- the definition `gen` ran; its result is returned or not
   | lookupError                                -- KeyError out of `ServiceRegistry.supports_response` (script-side call only)
+  | bindError                                  -- the data does not fit the function's parameters: the TypeError is logged,
+                                               -- the function does not run (no response: HA refuses a requested one)
+  | badResponse                                -- the function ran but its result is not a dict and a response was requested:
+                                               -- Home Assistant raises `service_reponse_invalid`
 deriving DecidableEq, Repr
 
 /-- `hass.services.async_call(domain, service, data, blocking=True, return_response=rr)` on a pyscript service -/
@@ -293,6 +297,29 @@ def callOutcome (cfg : Cfg) (r : Reg) (k : Svc) (ctxVal : String) (data : Kw) (r
     if rr && h.resp == .none then .invalid                        -- `none` is declared by omission: the enum default
     else if !rr && h.resp == .only && cfg.respEnum then .invalid
     else .ran h.gen (handlerKwargs ctxVal data) rr
+
+/-- the parameters of a service function, as far as binding keyword arguments is concerned -/
+structure Sig where
+  required : List String        -- positional-or-keyword parameters without default
+  params : List String          -- all parameters that a keyword can bind
+  extra : Bool                  -- `**kwargs` present
+deriving Repr
+
+/-- python's keyword binding of `func(**kwargs)`: every required parameter is given, and every keyword is a parameter
+unless `**kwargs` collects the rest -/
+def bindOK (s : Sig) (kw : Kw) : Bool :=
+  s.required.all (fun p => (aget p kw).isSome) && (s.extra || kw.all (fun q => s.params.contains q.1))
+
+/-- the answers of the generated test functions that are not dictionaries (`ret` in the call data selects the answer) -/
+def answerIsDict (kw : Kw) : Bool := !(["\"none\"", "\"list\""].contains ((aget "ret" kw).getD ""))
+
+/-- what becomes of a call that reached the handler of definition `g`, given the signatures of the definitions -/
+def bound (sigs : List (Nat × Sig)) : CallOut → CallOut
+  | .ran g kw rr =>
+    if (match aget g sigs with | some s => bindOK s kw | none => true) then
+      (if rr && !answerIsDict kw then .badResponse else .ran g kw rr)
+    else .bindError
+  | o => o
 
 /-- a call made by a script (`service.call(...)` / `domain.service(...)`) goes through
 `Function.hass_services_async_call`: a response-only target is asked for its response even when the script did not say
